@@ -14,10 +14,10 @@ mkdir -p "$wt/_tmp"
 ( cd "$wt" && TEST_TMPDIR="$wt/_tmp" ctest --test-dir _build -j6 --timeout 900 2>&1 | grep -E "tests passed|FAILED|Failed|\*\*\*" ) >> "$log" 2>&1
 if [ -n "$demo" ]; then
   cc -O1 -w -I"$wt/include" -I"$wt/src" "$demo" "$wt/_build/liblcdb.a" -lpthread -lm -o "$wt/demo_mut" >> "$log" 2>&1
-  ( cd "$wt/_tmp" && timeout 300 "$wt/demo_mut" "$wt/_tmp/demo_db" > "$wt/demo_mut.out" 2>&1; echo "DEMO with change: exit=$? $(tail -1 "$wt/demo_mut.out" | cut -c1-120)" ) >> "$log"
+  mkdir -p "$wt/_tmp/demo_db"; ( cd "$wt/_tmp" && timeout 300 "$wt/demo_mut" "$wt/_tmp/demo_db" > "$wt/demo_mut.out" 2>&1; echo "DEMO with change: exit=$? $(tail -1 "$wt/demo_mut.out" | cut -c1-120)" ) >> "$log"
   cc -O1 -w -I/repo/include -I/repo/src "$demo" /repo/_build/liblcdb.a -lpthread -lm -o "$wt/demo_ok" >> "$log" 2>&1
   rm -rf "$wt/_tmp2"; mkdir -p "$wt/_tmp2"
-  ( cd "$wt/_tmp2" && timeout 300 "$wt/demo_ok" "$wt/_tmp2/demo_db" > "$wt/demo_ok.out" 2>&1; echo "DEMO unchanged:   exit=$? $(tail -1 "$wt/demo_ok.out" | cut -c1-120)" ) >> "$log"
+  mkdir -p "$wt/_tmp2/demo_db"; ( cd "$wt/_tmp2" && timeout 300 "$wt/demo_ok" "$wt/_tmp2/demo_db" > "$wt/demo_ok.out" 2>&1; echo "DEMO unchanged:   exit=$? $(tail -1 "$wt/demo_ok.out" | cut -c1-120)" ) >> "$log"
 fi
 git -C /repo worktree remove --force "$wt" >/dev/null 2>&1; rm -rf "$wt"
 cat "$log"
